@@ -73,8 +73,16 @@ func runC19(c *ctx) error {
 			n := rng.Intn(40)
 			suffix := fmt.Sprintf("EiSuffix%03d", n)
 			mk := func() (*protocol.ResolutionModel, protocol.TransformationInfo) {
+				// equivalent references: none, others, and (every third) one that equals the canonical reference
+				var eqRefs []string
+				switch n % 3 {
+				case 1:
+					eqRefs = []string{fmt.Sprintf("eqA%d", n), fmt.Sprintf("eqB%d", n)}
+				case 2:
+					eqRefs = []string{fmt.Sprintf("eqA%d", n), fmt.Sprintf("ref%d", n), fmt.Sprintf("eqB%d", n)}
+				}
 				rm := &protocol.ResolutionModel{Doc: c19Doc(n), RecoveryCommitment: "rc", UpdateCommitment: "uc", CreatedTime: 1700000000, UpdatedTime: uint64(1700000000 + n),
-					VersionID: fmt.Sprintf("v%d", n), CanonicalReference: fmt.Sprintf("ref%d", n),
+					VersionID: fmt.Sprintf("v%d", n), CanonicalReference: fmt.Sprintf("ref%d", n), EquivalentReferences: eqRefs,
 					PublishedOperations: []*operation.AnchoredOperation{{Type: operation.TypeCreate, UniqueSuffix: suffix, CanonicalReference: fmt.Sprintf("ref%d", n), TransactionTime: 1}}}
 				return rm, dochandler.GetTransformationInfoForPublished("did:sidetree", "did:sidetree:"+suffix, suffix, rm)
 			}
@@ -90,6 +98,21 @@ func runC19(c *ctx) error {
 			}
 			if err != nil {
 				continue
+			}
+			// the metadata's equivalentId mirrors the model: the canonical id, then one id per equivalent reference, in order
+			{
+				want := []string{"did:sidetree:" + rm.CanonicalReference + ":" + suffix}
+				for _, e := range rm.EquivalentReferences {
+					want = append(want, "did:sidetree:"+e+":"+suffix)
+				}
+				rawMD, _ := json.Marshal(res.DocumentMetadata)
+				var md struct {
+					EquivalentID []string `json:"equivalentId"`
+				}
+				_ = json.Unmarshal(rawMD, &md)
+				if fmt.Sprint(md.EquivalentID) != fmt.Sprint(want) {
+					r.Direct = append(r.Direct, out.Direct{Oracle: "equivalent_ids_mirror_the_model", What: fmt.Sprintf("equivalentId %v, expected %v", md.EquivalentID, want), Case: desc})
+				}
 			}
 			a, _ := json.Marshal(res)
 			b, _ := json.Marshal(fresh)
